@@ -24,6 +24,7 @@ func ruleC15(prog *Program, rep *Report) {
 	// sen.String and oj.JSON then disagree with the other encoders
 	ruleEntryParity(prog, rep, "oj.Writer", "sen.Writer")
 	ruleUnguardedElem(prog, rep, "oj", "sen", "alt", "pretty")
+	ruleBytesAs(prog, rep)
 }
 
 // fieldLoops finds `for` loops whose init or condition calls NumField().
